@@ -507,14 +507,14 @@ def gen_access2(rng):
     # a third of the scenarios run whole frames (`App::update` clears Bevy's change trackers) and use batches of a single
     # resource action, which the harness sends through the `World`-level resource API every other time
     frames = rng.random() < 0.33
-    if frames: setup.append("on p %d rem:0 rem:1 res:0 res:1" % rng.randrange(g.ndefs))
+    if frames: setup.append("on p %d %sres:0 res:1" % (rng.randrange(g.ndefs), "rem:0 rem:1 " if rng.random() < 0.5 else ""))
     out.append("top acts %d" % len(setup)); out += setup
     for _ in range(rng.randint(3, 7)):
         sc = batch(1, 3)
         out.append("top acts %d" % len(sc)); out += sc
         if rng.random() < 0.15: out.append("top frameend")
         if frames and rng.random() < 0.6:
-            if rng.random() < 0.7: out.append("top update")
+            if rng.random() < 0.7: out += UPDATE
             for _ in range(rng.randint(1, 3)):
                 ty = rng.randrange(NTY); x = rng.random()
                 out.append("top acts 1")
@@ -653,10 +653,15 @@ def gen_appreact(rng):
     out.append("top frameend")
     return "\n".join(out) + "\n"
 
+UPDATE = ["top update", "top cleartrackers"]   # `App::update()`: the schedules, then `World::clear_trackers`
+
 def gen_frames(rng):
     """C08/C10/C11: whole frames through `App::update()` (the `Last` schedule: collector, then the poll) instead of the
-    manual `frameend`. Removal reactors for every component type are registered first, so every poll reads all removal
-    events (Bevy drops unread ones after two updates, which the model does not describe)."""
+    manual `frameend`; each is written `top update` + `top cleartrackers` (the schedules, then `World::clear_trackers`, at
+    which Bevy drops the removal events that are two frames old: the model ages them the same way). Three flavours:
+    removal reactors for every component type registered first (every poll reads everything); nothing registered first
+    (types become tracked late or never: events of untracked types age and vanish); and `entity-only`, where the only
+    removal reactors are entity-scoped and there is no despawn reactor at all (nothing in `ReactCache` but the checkers)."""
     g = G(rng); out = []
     nE = rng.randint(2, 4)
     g.ndefs = rng.randint(1, 2)
@@ -676,14 +681,18 @@ def gen_frames(rng):
     setup = ["spawn"] * nE
     for e in range(nE):
         for ty in range(NTY): setup.append("insert e%d %d 1" % (e, ty))
-    setup.append("on p %d rem:0 rem:1" % rng.randrange(g.ndefs))
-    nS = 1
+    flavour = rng.choice(["all", "all", "late", "late", "entity-only"])
+    nS = 0
+    if flavour == "all": setup.append("on p %d rem:0 rem:1" % rng.randrange(g.ndefs)); nS += 1
     for _ in range(rng.randint(1, 3)):
         e = "e%d" % rng.randrange(nE)
-        t = rng.choice(["dsp:%s" % e, "erem:%s:%d" % (e, rng.randrange(NTY)), "bc:0", "dsp:%s erem:%s:0" % (e, e)])
+        if flavour == "entity-only":
+            t = rng.choice(["erem:%s:%d" % (e, rng.randrange(NTY)), "erem:%s:0 erem:%s:1" % (e, e), "bc:0 erem:%s:%d" % (e, rng.randrange(NTY))])
+        else:
+            t = rng.choice(["dsp:%s" % e, "erem:%s:%d" % (e, rng.randrange(NTY)), "bc:0", "dsp:%s erem:%s:0" % (e, e)])
         setup.append("on %s %d %s" % (rng.choice("pcr"), rng.randrange(g.ndefs), t)); nS += 1
     watched = None
-    if rng.random() < 0.6:
+    if flavour != "entity-only" and rng.random() < 0.6:
         # an entity watched by a despawn (and a removal) reactor that will die through its last signal, outside any tree
         watched = "e%d" % rng.randrange(nE)
         setup.append("on %s %d dsp:%s" % (rng.choice("ppc"), rng.randrange(g.ndefs), watched)); nS += 1
@@ -692,10 +701,12 @@ def gen_frames(rng):
     for _ in range(rng.randint(3, 9)):
         x = rng.random(); e = "e%d" % rng.randrange(nE)
         if watched and x < 0.12:
-            out += ["top sigprepare %s" % watched, "top sigdrop a%d" % nsig, "top update"]; nsig += 1
+            out += ["top sigprepare %s" % watched, "top sigdrop a%d" % nsig] + UPDATE; nsig += 1
             if rng.random() < 0.5: out.append("top acts 1"); out.append("broadcast 0 %d" % g.newpid())
             watched = None
-        elif x < 0.25: out.append("top update")
+        elif x < 0.25: out += UPDATE
+        elif x < 0.27: out.append("top cleartrackers")          # a user who drives the world by hand
+        elif x < 0.29 and flavour == "late": out.append("top acts 1"); out.append("on p %d %s" % (rng.randrange(g.ndefs), rng.choice(["rem:0", "rem:1", "erem:%s:%d" % (e, rng.randrange(NTY))]))); nS += 1
         elif x < 0.35: out.append("top sigprepare %s" % e); nsig += 1
         elif x < 0.45 and nsig: out.append("top sigdrop a%d" % rng.randrange(nsig))
         elif x < 0.5 and nsig: out.append("top sigclone a%d" % rng.randrange(nsig))
@@ -712,7 +723,10 @@ def gen_frames(rng):
                 elif y < 0.85: sc.append("despawn s%d" % rng.randrange(nS))
                 else: sc.append("broadcast 0 %d" % g.newpid())
             out.append("top acts %d" % len(sc)); out += sc
-    out.append("top update")
+    out += UPDATE
+    if flavour != "all" and rng.random() < 0.5:
+        # a late registration after the last frame, then one more poll: what is still readable reacts, what aged out does not
+        out += ["top acts 1", "on p %d rem:%d" % (rng.randrange(g.ndefs), rng.randrange(NTY))] + (UPDATE if rng.random() < 0.5 else ["top poll"])
     return "\n".join(out) + "\n"
 
 def gen_wide(rng):
@@ -1106,7 +1120,7 @@ def with_validity(text, rng):
     if text.startswith("mode syscall") or rng.random() >= 0.25: return text
     out, on = [], True
     for l in text.split("\n"):
-        if l.startswith("top ") and rng.random() < (0.3 if on else 0.2):
+        if l.startswith("top ") and l != "top cleartrackers" and rng.random() < (0.3 if on else 0.2):
             on = not on
             out.append("valid %d" % (1 if on else 0))
         out.append(l)
